@@ -36,5 +36,9 @@ def run(repo, res, tier):
                 res.add(Finding("TB3", f"grammar.{c}", f"comments {tuple(pr)!r}",
                                 f"{c}.comments contains {tuple(pr)!r}: {why}"))
     lexrules.rule_preserve(repo, res)
+    from .. import hookrules as _hk
+    _hk.rule_token_init(repo, res)
     lexrules.rule_preserve_first(repo, res)
     common.token_wsc_rule(repo, res)
+    from .. import langrules
+    langrules.rule_wsc_lang(repo, res, langrules.analyse(repo))
